@@ -139,7 +139,7 @@ type histEnv struct {
 
 func (e *histEnv) digestArgs() string {
 	var sb strings.Builder
-	for _, k := range []string{"leaf", "or", "notand", "fn"} {
+	for _, k := range []string{"leaf", "or", "notand", "fn", "andnull", "nested"} {
 		sb.WriteString(e.clauses[k].String())
 		sb.WriteByte(';')
 	}
@@ -167,6 +167,9 @@ func newHistEnv() *histEnv {
 		"or":     qframe.Or(qframe.Filter{Column: "f", Comparator: "isnull"}, qframe.Filter{Column: "s", Comparator: "=", Arg: "a"}),
 		"notand": qframe.Not(qframe.And(qframe.Filter{Column: "i", Comparator: ">", Arg: 0}, qframe.Filter{Column: "b", Comparator: "=", Arg: true})),
 		"fn":     qframe.Filter{Column: "s", Comparator: nonempty},
+		// sub-clauses that hand their receiver through unchanged before a filtering leaf
+		"andnull": qframe.And(qframe.Null(), qframe.Filter{Column: "i", Comparator: ">", Arg: 1}),
+		"nested":  qframe.And(qframe.Or(qframe.Null()), qframe.And(qframe.Null(), qframe.Filter{Column: "k", Comparator: "=", Arg: 1}), qframe.Filter{Column: "i", Comparator: "<", Arg: 3}),
 	}
 	e.orders1 = []qframe.Order{{Column: "k"}}
 	e.orders2 = []qframe.Order{{Column: "e", Reverse: true, NullLast: true}, {Column: "i"}}
@@ -196,7 +199,7 @@ func (e *histEnv) initial(id int) qframe.QFrame {
 	case 0: // five types, nulls/NaN, ties
 		return qframe.New(map[string]interface{}{
 			"i": []int{3, 1, 2, 1, 0},
-			"f": []float64{1.5, math.NaN(), -2, 1.5, 0},
+			"f": []float64{1.5, math.NaN(), -2, 1.5, math.Copysign(0, -1)},
 			"b": []bool{true, false, true, true, false},
 			"s": []*string{sptr("a"), nil, sptr(""), sptr("b"), sptr("a")},
 			"e": []*string{sptr("lo"), sptr("hi"), nil, sptr("lo"), sptr("mid")},
@@ -212,7 +215,7 @@ func (e *histEnv) initial(id int) qframe.QFrame {
 		}, enums)
 	default: // caller-owned slices: qframe stores []int/[]float64/[]bool without copying
 		e.ownedInt = []int{2, 2, 5, 0}
-		e.ownedFlt = []float64{0.5, math.NaN(), 0.5, 3}
+		e.ownedFlt = []float64{math.Copysign(0, -1), math.NaN(), 0.5, 0}
 		e.ownedBool = []bool{false, true, true, false}
 		e.ownedStr = []*string{sptr("x"), sptr(""), nil, sptr("x")}
 		return qframe.New(map[string]interface{}{
@@ -253,6 +256,8 @@ func c01Ops() []histOp {
 		frameOp("Filter(or)", func(e *histEnv, q qframe.QFrame) qframe.QFrame { return q.Filter(e.clauses["or"]) }),
 		frameOp("Filter(not-and)", func(e *histEnv, q qframe.QFrame) qframe.QFrame { return q.Filter(e.clauses["notand"]) }),
 		frameOp("Filter(fn)", func(e *histEnv, q qframe.QFrame) qframe.QFrame { return q.Filter(e.clauses["fn"]) }),
+		frameOp("Filter(And(Null,leaf))", func(e *histEnv, q qframe.QFrame) qframe.QFrame { return q.Filter(e.clauses["andnull"]) }),
+		frameOp("Filter(And(Or(Null),And(Null,leaf),leaf))", func(e *histEnv, q qframe.QFrame) qframe.QFrame { return q.Filter(e.clauses["nested"]) }),
 		frameOp("Sort(k)", func(e *histEnv, q qframe.QFrame) qframe.QFrame { return q.Sort(e.orders1...) }),
 		frameOp("Sort(e desc nulllast,i)", func(e *histEnv, q qframe.QFrame) qframe.QFrame { return q.Sort(e.orders2...) }),
 		frameOp("Slice(interior)", func(e *histEnv, q qframe.QFrame) qframe.QFrame {
@@ -288,6 +293,12 @@ func c01Ops() []histOp {
 		frameOp("Distinct()", func(e *histEnv, q qframe.QFrame) qframe.QFrame { return q.Distinct() }),
 		{name: "GroupBy(k)", on: mFrame, apply: func(e *histEnv, fam []*member, m *member) []*member {
 			nm := &member{kind: mGrouper, g: m.qf.GroupBy(groupby.Columns("k")), origin: "GroupBy(k)"}
+			nm.digest = nm.observe()
+			nm.isErr = nm.g.Err != nil
+			return []*member{nm}
+		}},
+		{name: "GroupBy(f,null)", on: mFrame, apply: func(e *histEnv, fam []*member, m *member) []*member {
+			nm := &member{kind: mGrouper, g: m.qf.GroupBy(groupby.Columns("f"), groupby.Null(true)), origin: "GroupBy(f,null)"}
 			nm.digest = nm.observe()
 			nm.isErr = nm.g.Err != nil
 			return []*member{nm}
@@ -544,7 +555,7 @@ func init() {
 			"operations on members whose Err is set are not expanded (C10); Append and Rolling are not part of the alphabet",
 		},
 		Bound: map[string]string{
-			"quick":    "all paths of depth <= 3 over 37 operations from 4 initial frames (0, 1, 4, 5 rows; one built on caller-owned slices)",
+			"quick":    "all paths of depth <= 3 over 40 operations from 4 initial frames (0, 1, 4, 5 rows; one built on caller-owned slices)",
 			"thorough": "all paths of depth <= 4",
 		},
 		Run:    c01Run,
